@@ -21,6 +21,7 @@ import (
 	"io"
 	"net/http"
 	"net/url"
+	"os"
 	"regexp"
 	"sort"
 	"strconv"
@@ -37,6 +38,7 @@ import (
 
 var run *common.Run
 var knownSeen int
+var seekKnownSeen int
 
 const (
 	mtDockerManifest = "application/vnd.docker.distribution.manifest.v2+json"
@@ -77,17 +79,17 @@ type Op struct {
 // Opts are Repository options that must not change any modelled behaviour.
 type Opts struct {
 	SkipGC  bool
-	Warn    bool // HandleWarning set; the registry sends Warning headers
-	RefPage int  // ReferrerListPageSize
-	TagPage int  // TagListPageSize
-	MaxMeta bool // MaxMetadataBytes = 1 MiB instead of the default
+	Warn    bool  // HandleWarning set; the registry sends Warning headers
+	RefPage int   // ReferrerListPageSize
+	TagPage int   // TagListPageSize
+	MaxMeta int64 // MaxMetadataBytes (0 = default)
 }
 
 func (o Opts) String() string {
-	return fmt.Sprintf("g%sw%sr%dt%dm%s", bit(o.SkipGC), bit(o.Warn), o.RefPage, o.TagPage, bit(o.MaxMeta))
+	return fmt.Sprintf("g%sw%sr%dt%dm%d", bit(o.SkipGC), bit(o.Warn), o.RefPage, o.TagPage, o.MaxMeta)
 }
 
-var optsRx = regexp.MustCompile(`^g([01])w([01])r([0-9]+)t([0-9]+)m([01])$`)
+var optsRx = regexp.MustCompile(`^g([01])w([01])r([0-9]+)t([0-9]+)m([0-9]+)$`)
 
 func parseOpts(s string) Opts {
 	m := optsRx.FindStringSubmatch(s)
@@ -96,7 +98,8 @@ func parseOpts(s string) Opts {
 	}
 	r, _ := strconv.Atoi(m[3])
 	t, _ := strconv.Atoi(m[4])
-	return Opts{SkipGC: m[1] == "1", Warn: m[2] == "1", RefPage: r, TagPage: t, MaxMeta: m[5] == "1"}
+	mm, _ := strconv.ParseInt(m[5], 10, 64)
+	return Opts{SkipGC: m[1] == "1", Warn: m[2] == "1", RefPage: r, TagPage: t, MaxMeta: mm}
 }
 
 type Case struct {
@@ -325,9 +328,7 @@ func newRepo(c *Case, g *fr.Registry) *remote.Repository {
 		ReferrerListPageSize: c.O.RefPage,
 		TagListPageSize:      c.O.TagPage,
 	}
-	if c.O.MaxMeta {
-		repo.MaxMetadataBytes = 1 << 20
-	}
+	repo.MaxMetadataBytes = c.O.MaxMeta
 	switch c.Rst {
 	case 1:
 		repo.SetReferrersCapability(true)
@@ -402,6 +403,29 @@ func contentReader(content []byte, d fr.Desc, salt int) io.Reader {
 	return bytes.NewReader(content)
 }
 
+// target: the store an operation with a descriptor is sent to.  Repository routes by media type
+// to Blobs() or Manifests(); calling that sub-store directly must be the same thing, so the two
+// ways alternate deterministically (quantifier: Repository/BlobStore/ManifestStore operations).
+type contentStore interface {
+	Fetch(ctx context.Context, target ocispec.Descriptor) (io.ReadCloser, error)
+	Push(ctx context.Context, expected ocispec.Descriptor, content io.Reader) error
+	Exists(ctx context.Context, target ocispec.Descriptor) (bool, error)
+	Delete(ctx context.Context, target ocispec.Descriptor) error
+}
+
+func target(c *Case, repo *remote.Repository, d fr.Desc) contentStore {
+	if (len(d.DG)+int(d.SZ)+len(d.MT))%2 == 0 {
+		run.Count("route:repository")
+		return repo
+	}
+	if isManifest(c, d.MT) {
+		run.Count("route:manifests")
+		return repo.Manifests()
+	}
+	run.Count("route:blobs")
+	return repo.Blobs()
+}
+
 func doOp(ctx context.Context, c *Case, repo *remote.Repository, o Op) (res opResult) {
 	fail := func(err error) opResult { return opResult{Str: errClass(err), Err: err} }
 	var content []byte
@@ -410,7 +434,7 @@ func doOp(ctx context.Context, c *Case, repo *remote.Repository, o Op) (res opRe
 	}
 	switch o.Kind {
 	case "push":
-		if err := repo.Push(ctx, od(o.D), contentReader(content, o.D, len(o.D.MT))); err != nil {
+		if err := target(c, repo, o.D).Push(ctx, od(o.D), contentReader(content, o.D, len(o.D.MT))); err != nil {
 			return fail(err)
 		}
 		return opResult{Str: "ok"}
@@ -420,7 +444,7 @@ func doOp(ctx context.Context, c *Case, repo *remote.Repository, o Op) (res opRe
 		}
 		return opResult{Str: "ok"}
 	case "fetch":
-		rc, err := repo.Fetch(ctx, od(o.D))
+		rc, err := target(c, repo, o.D).Fetch(ctx, od(o.D))
 		if err != nil {
 			return fail(err)
 		}
@@ -431,13 +455,13 @@ func doOp(ctx context.Context, c *Case, repo *remote.Repository, o Op) (res opRe
 		}
 		return opResult{Str: "bytes:" + common.Hex(string(b)), Bytes: b}
 	case "exists":
-		ok, err := repo.Exists(ctx, od(o.D))
+		ok, err := target(c, repo, o.D).Exists(ctx, od(o.D))
 		if err != nil {
 			return fail(err)
 		}
 		return opResult{Str: "bool:" + bit(ok), Bool: ok}
 	case "delete":
-		if err := repo.Delete(ctx, od(o.D)); err != nil {
+		if err := target(c, repo, o.D).Delete(ctx, od(o.D)); err != nil {
 			return fail(err)
 		}
 		return opResult{Str: "ok"}
@@ -554,6 +578,14 @@ func accurateFor(d fr.Desc, b []byte) bool { return d.DG == sha(b) && d.SZ == in
 // its effect; "" = no prediction for the result (state effect known);
 // "?" = the caller's descriptor is inaccurate and the effect is not fixed by the
 // property: the history is not judged any further.
+func (c *Case) overLimit(n int) bool {
+	l := c.O.MaxMeta
+	if l <= 0 {
+		l = 4 * 1024 * 1024
+	}
+	return int64(n) > l
+}
+
 func (t *truth) expect(c *Case, o Op) string {
 	isMan := isManifest(c, o.D.MT)
 	var content []byte
@@ -567,6 +599,9 @@ func (t *truth) expect(c *Case, o Op) string {
 			return "err"
 		}
 		if isMan {
+			if indexable(o.D.MT) && c.overLimit(len(content)) {
+				return "?" // refused by MaxMetadataBytes unless the Referrers API is known to be there
+			}
 			t.mans[o.D.DG] = man{o.D.MT, content}
 			if !jsonOK() && indexable(o.D.MT) {
 				return "" // stored, but the client may fail to decode it afterwards
@@ -585,6 +620,9 @@ func (t *truth) expect(c *Case, o Op) string {
 		}
 		if k == "digest" && rf != o.D.DG {
 			return "err"
+		}
+		if indexable(o.D.MT) && c.overLimit(len(content)) {
+			return "?"
 		}
 		t.mans[o.D.DG] = man{o.D.MT, content}
 		if k == "tag" {
@@ -624,13 +662,16 @@ func (t *truth) expect(c *Case, o Op) string {
 		if isMan {
 			m, ok := t.mans[o.D.DG]
 			if !ok {
+				if indexable(o.D.MT) && c.overLimit(int(o.D.SZ)) {
+					return "err" // refused by size before anything is asked
+				}
 				return "err:nf"
 			}
 			if !accurateFor(o.D, m.b) || m.mt != o.D.MT {
 				return "?"
 			}
-			if indexable(m.mt) && !c.isJSON(m.b) {
-				return "?" // the client decodes the manifest before deleting it (referrers bookkeeping)
+			if indexable(m.mt) && (!c.isJSON(m.b) || c.overLimit(len(m.b))) {
+				return "?" // the client reads and decodes the manifest before deleting it (referrers bookkeeping)
 			}
 			delete(t.mans, o.D.DG)
 			for k, v := range t.tags {
@@ -664,6 +705,10 @@ func (t *truth) expect(c *Case, o Op) string {
 		d := fr.ShowDesc(fr.Desc{MT: m.mt, DG: dg, SZ: int64(len(m.b))})
 		if o.Kind == "resolve" {
 			return "desc:" + d
+		}
+		if c.overLimit(len(m.b)) {
+			// a manifest over MaxMetadataBytes may be refused, but never be returned truncated
+			return "err|db:" + d + "," + common.Hex(string(m.b))
 		}
 		return "db:" + d + "," + common.Hex(string(m.b))
 	case "bresolve", "bfetchref":
@@ -730,6 +775,10 @@ func (t *truth) expect(c *Case, o Op) string {
 				}
 			}
 		}
+		if c.O.MaxMeta > 0 && c.O.MaxMeta < 1<<16 {
+			// the referrers index itself may not fit a small MaxMetadataBytes: refused, never cut
+			return "err|descs:" + fr.ShowDescs(l)
+		}
 		return "descs:" + fr.ShowDescs(l)
 	}
 	return ""
@@ -742,6 +791,9 @@ func agrees(expect, got string) bool {
 	if expect == "err" {
 		return strings.HasPrefix(got, "err:")
 	}
+	if strings.HasPrefix(expect, "err|") {
+		return strings.HasPrefix(got, "err:") || got == expect[4:]
+	}
 	return expect == got
 }
 
@@ -752,16 +804,36 @@ func mustFail(c *Case, o Op, ex fr.Exchange) bool {
 	hasDesc := map[string]bool{"push": true, "pushref": true, "fetch": true, "exists": true, "delete": true, "tag": true, "mount": true}[o.Kind]
 	digestRef := q.EP.Kind == "blob" || (q.EP.Kind == "man" && validDigest(q.EP.Arg))
 	orig := ex.R.Status
+	if f == "name-unknown" {
+		return true
+	}
 	if f == "status" {
+		if c.Cor.Arg == strconv.Itoa(origStatusOf(ex)) {
+			return false // not a corruption
+		}
+		// 200/201/202 in answer to a POST are protocol alternatives the client cannot tell from
+		// the truth (mounted vs. session opened): a lying registry, not a contradiction
+		if q.M == "POST" && (c.Cor.Arg == "201" || c.Cor.Arg == "202") {
+			return false
+		}
+		// ... and so is the success status of the request on an answer that was a refusal
+		// (a 404 turned into a bare 200 is a valid answer without length and digest headers)
+		success := map[string]string{"GET": "200", "HEAD": "200", "PUT": "201", "DELETE": "202"}[q.M]
+		if c.Cor.Arg == success {
+			return false
+		}
 		return true
 	}
 	if !ok2xx(orig) {
 		return false
 	}
 	read := q.M == "GET" || q.M == "HEAD"
-	if (o.Kind == "fetchref" || o.Kind == "bfetchref") && q.M == "GET" && ex.R.CLen == nil {
-		// a GET without Content-Length only supplies the body: the descriptor is
-		// derived from a second (HEAD) request, the headers of the GET are not used
+	// FetchReference whose GET carries no Content-Length derives the descriptor from a second
+	// (HEAD) request: length and media type of the GET are then not "what was requested" --
+	// but the body it returns comes from this GET, so a digest header that is unparsable or
+	// names other content than the digest asked for must still make the call fail
+	noLenGet := (o.Kind == "fetchref" || o.Kind == "bfetchref") && q.M == "GET" && ex.R.CLen == nil
+	if noLenGet && f != "dig-other" && f != "dig-garbage" {
 		return false
 	}
 	// what the call knows about the content it asked for
@@ -775,6 +847,8 @@ func mustFail(c *Case, o Op, ex fr.Exchange) bool {
 	case "dig-garbage":
 		return (read && (q.EP.Kind == "blob" || q.EP.Kind == "man")) || q.M == "DELETE" ||
 			(q.M == "PUT" && q.EP.Kind == "man") || (q.M == "POST" && orig == 201)
+		// (the final PUT of a blob upload ignores an unparsable digest header: only a
+		// well-formed one naming other content contradicts the descriptor)
 	case "dig-other":
 		// the header names other content than the one requested
 		contradicts := wantDigest != "" && ex.R.Dig != nil && *ex.R.Dig != wantDigest
@@ -782,7 +856,7 @@ func mustFail(c *Case, o Op, ex fr.Exchange) bool {
 			return false
 		}
 		if q.M == "PUT" {
-			return q.EP.Kind == "man"
+			return q.EP.Kind == "man" || q.EP.Kind == "sess" // manifest PUT and the blob upload's final PUT
 		}
 		if q.M == "POST" {
 			return orig == 201
@@ -801,6 +875,15 @@ func mustFail(c *Case, o Op, ex fr.Exchange) bool {
 		return q.M == "POST" && orig == 202
 	}
 	return false
+}
+
+// origStatusOf: the status before a status corruption cannot be read off the logged (corrupted)
+// response; the registry's honest statuses are determined by method and endpoint.
+func origStatusOf(ex fr.Exchange) int {
+	if ex.OrigStatus != 0 {
+		return ex.OrigStatus
+	}
+	return ex.R.Status
 }
 
 func replayOf(line string) map[string]string { return map[string]string{"line": line} }
@@ -825,6 +908,7 @@ func execHistory(id string, c *Case) (nreq int) {
 		t.other[c.Pool[i].Digest] = c.Pool[i].Bytes
 	}
 	var parts []string
+	nbad := 0
 	judging := true
 	nontrivial := false
 	for i, o := range c.Ops {
@@ -841,11 +925,18 @@ func execHistory(id string, c *Case) (nreq int) {
 		}
 		var tr []string
 		var hit *fr.Exchange
+		lied := false
 		for k := first; k < len(g.Log); k++ {
 			ex := g.Log[k]
 			tr = append(tr, fr.ShowReq(ex.Q)+">"+fr.ShowResp(ex.R))
 			if ex.Bad != "" {
+				nbad++
+			}
+			if ex.Bad != "" && !lied {
 				run.OracleFail(id, "request-not-allowed", fmt.Sprintf("op %d (%s): %s: %s", i, o.Kind, ex.Bad, fr.ShowReq(ex.Q)), replayOf(line))
+			}
+			if ex.Hit && ex.Q.M == "POST" && c.Cor.Field == "status" {
+				lied = true // the client follows what the registry claimed
 			}
 			if ex.Hit {
 				e := ex
@@ -876,7 +967,12 @@ func execHistory(id string, c *Case) (nreq int) {
 		}
 		if hit != nil {
 			run.Count("corrupt:" + c.Cor.Field + ":" + o.Kind + ":" + hit.Q.M + ":" + hit.Q.EP.Kind)
-			if mustFail(c, o, *hit) && res.Err == nil {
+			// a 404 is an answer the protocol defines: Exists reports "not there" instead of failing
+			notFound := (c.Cor.Field == "name-unknown" || (c.Cor.Field == "status" && c.Cor.Arg == "404")) &&
+				((o.Kind == "exists" && res.Str == "bool:0") ||
+					// ... and a plain 404 on the referrers endpoint means "no Referrers API": tag schema
+					(o.Kind == "preds" && c.Cor.Field == "status" && hit.Q.EP.Kind == "refs"))
+			if mustFail(c, o, *hit) && res.Err == nil && !notFound {
 				run.OracleFail(id, "corruption-accepted", fmt.Sprintf("op %d (%s): response to %s corrupted in %s, call returned %s", i, o.Kind,
 					fr.ShowReq(hit.Q), c.Cor.Field, res.Str), replayOf(line))
 			}
@@ -912,7 +1008,7 @@ func execHistory(id string, c *Case) (nreq int) {
 	if nontrivial {
 		run.Nontrivial(line)
 	}
-	run.Case(id, line, "notallowed=0 | "+strings.Join(parts, " | "))
+	run.Case(id, line, fmt.Sprintf("notallowed=%d | ", nbad)+strings.Join(parts, " | "))
 	run.TracesAgainstImpl += len(g.Log)
 	return g.N
 }
@@ -926,8 +1022,9 @@ type SeekOp struct {
 }
 
 type SeekCase struct {
-	Prof    fr.Profile // capability profile of the registry
-	Via     int        // 0 = Repository.Fetch, 1 = blob FetchReference
+	Prof    fr.Profile     // capability profile of the registry
+	Via     int            // 0 = Repository.Fetch, 1 = blob FetchReference
+	Cor     *fr.Corruption // K = index among the Range requests of the script whose answer is corrupted
 	Content []byte
 	Modes   []fr.BodyMode // behaviour of the i-th blob body (cycled)
 	Ops     []SeekOp
@@ -936,7 +1033,19 @@ type SeekCase struct {
 func (s *SeekCase) Line() string {
 	p := s.Prof
 	w := []string{"S", common.Hex(string(s.Content)), bit(p.DigHdr) + bit(p.Range) + bit(p.CLen) + bit(p.Mount) + bit(p.Referrers),
-		strconv.Itoa(s.Via), strconv.Itoa(len(s.Modes))}
+		strconv.Itoa(s.Via)}
+	if s.Cor == nil {
+		w = append(w, "-")
+	} else {
+		w = append(w, strconv.Itoa(s.Cor.K), s.Cor.Field)
+		switch s.Cor.Field {
+		case "dig-other":
+			w = append(w, common.Hex(s.Cor.Arg))
+		case "status":
+			w = append(w, s.Cor.Arg)
+		}
+	}
+	w = append(w, strconv.Itoa(len(s.Modes)))
 	for _, m := range s.Modes {
 		w = append(w, strconv.Itoa(m.Chunk), bit(m.EOFWithData))
 	}
@@ -963,8 +1072,32 @@ func ParseSeek(line string) (*SeekCase, error) {
 	s := &SeekCase{Content: []byte(common.UnHex(t[1])),
 		Prof: fr.Profile{DigHdr: pb[0] == '1', Range: pb[1] == '1', CLen: pb[2] == '1', Mount: pb[3] == '1', Referrers: pb[4] == '1'}}
 	s.Via, _ = strconv.Atoi(t[3])
-	nm, _ := strconv.Atoi(t[4])
-	i := 5
+	i := 4
+	if t[i] == "-" {
+		i++
+	} else {
+		if i+1 >= len(t) {
+			return nil, errors.New("short")
+		}
+		k, _ := strconv.Atoi(t[i])
+		s.Cor = &fr.Corruption{K: k, Field: t[i+1]}
+		i += 2
+		if s.Cor.Field == "dig-other" || s.Cor.Field == "status" {
+			if i >= len(t) {
+				return nil, errors.New("short")
+			}
+			s.Cor.Arg = t[i]
+			if s.Cor.Field == "dig-other" {
+				s.Cor.Arg = common.UnHex(t[i])
+			}
+			i++
+		}
+	}
+	if i >= len(t) {
+		return nil, errors.New("short")
+	}
+	nm, _ := strconv.Atoi(t[i])
+	i++
 	for ; nm > 0; nm-- {
 		if i+1 >= len(t) {
 			return nil, errors.New("short")
@@ -1038,6 +1171,10 @@ func execSeek(id string, s *SeekCase) {
 	}
 	if err != nil {
 		panic(err)
+	}
+	if s.Cor != nil {
+		// from here on every exchange is a Range request of the script
+		g.Corrupt = &fr.Corruption{K: g.N + s.Cor.K, Field: s.Cor.Field, Arg: s.Cor.Arg}
 	}
 	cell := fmt.Sprintf("seek:matrix:%s:via%d", strings.Fields(line)[2], s.Via)
 	run.Count(cell)
@@ -1113,15 +1250,48 @@ func execSeek(id string, s *SeekCase) {
 			want := o.N
 			switch o.W {
 			case io.SeekCurrent:
-				want += pos
+				want += pos // int64 arithmetic, as any io.Seeker
 			case io.SeekEnd:
 				want += size
 			}
+			mayReconnect = want >= 0 && !closed && want != pos && want < size
+			// was the answer to this Seek's Range request corrupted, and in a way that
+			// contradicts the request (status other than 206, a Content-Length that is not
+			// the length of the range, a digest header naming other content / unparsable)?
+			mustFailSeek, corruptedHere := false, false
+			for k := first; k < len(g.Log); k++ {
+				if ex := g.Log[k]; ex.Hit {
+					corruptedHere = true
+					run.Count("seek:corrupt:" + s.Cor.Field)
+					switch s.Cor.Field {
+					case "status":
+						mustFailSeek = true
+					case "len-inc":
+						mustFailSeek = ex.R.CLen != nil
+					case "dig-other":
+						mustFailSeek = ex.R.Dig != nil && *ex.R.Dig != d.DG
+					case "dig-garbage":
+						mustFailSeek = true
+					}
+				}
+			}
 			if err != nil {
 				out = "err"
-				if want >= 0 && !closed {
+				if want >= 0 && !closed && !(corruptedHere && mustFailSeek) {
 					fail("seek", fmt.Sprintf("Seek to %d failed: %v", want, err))
 				}
+			} else if mustFailSeek {
+				out = "pos:" + strconv.FormatInt(p, 10)
+				sig := "seek-corruption-accepted"
+				if strings.HasPrefix(s.Cor.Field, "dig-") {
+					// known: the readSeekCloser has no idea of the digest it reads, the header of a 206 is not looked at
+					sig = "seek-206-digest-unverified"
+					seekKnownSeen++
+				}
+				if sig != "seek-206-digest-unverified" || seekKnownSeen <= 25 {
+					fail(sig, fmt.Sprintf("the 206 was corrupted in %s (%s), Seek succeeded", s.Cor.Field, fr.ShowResp(g.Log[len(g.Log)-1].R)))
+				}
+				pos = want
 			} else {
 				out = "pos:" + strconv.FormatInt(p, 10)
 				if closed || want < 0 {
@@ -1132,7 +1302,6 @@ func execSeek(id string, s *SeekCase) {
 					if want == pos {
 						run.Count("seek:position-unchanged")
 					}
-					mayReconnect = want != pos && want < size
 					pos = want
 				}
 			}
@@ -1509,7 +1678,8 @@ func genLoc(r *common.Rand) *LocCase {
 	case 6:
 		l.Loc = l.Scheme + "://" + l.Host + path + query // the issue-177 shape when Port is 443
 	default: // forms the model does not judge (net/url territory)
-		l.Loc = common.Pick(r, []string{"uploads/7", "//other.example/v2/x", "https://user@reg.io/v2/x", "/v2/a%20b/uploads/1", "/v2/x?a=b%26c", "https://[::1]:443/v2/x", ""})
+		l.Loc = common.Pick(r, []string{"/v2/app/blobs/uploads/./7", "/v2/app/blobs/../uploads/7?a=1", "/v2/app/./blobs/uploads/../7", "/v2/x?a=1&b",
+			l.Scheme + "://" + l.Host + "/v2/./x/../y", "uploads/7", "//other.example/v2/x", "https://user@reg.io/v2/x", "/v2/a%20b/uploads/1", "/v2/x?a=b%26c", "https://[::1]:443/v2/x", ""})
 	}
 	return l
 }
@@ -1532,7 +1702,10 @@ func genCase(r *common.Rand, nops int) *Case {
 	c := &Case{Main: common.Pick(r, []string{"app/web", "hello-world", "a/b/c"}), Other: common.Pick(r, []string{"lib/base", "src"})}
 	c.Prof = fr.Profile{DigHdr: r.Chance(2, 3), Range: r.Bool(), CLen: r.Chance(3, 4), Mount: r.Bool(), Referrers: r.Bool()}
 	c.Plain = r.Bool()
-	c.O = Opts{SkipGC: r.Bool(), Warn: r.Chance(1, 3), MaxMeta: r.Chance(1, 4)}
+	c.O = Opts{SkipGC: r.Bool(), Warn: r.Chance(1, 3)}
+	if r.Chance(1, 6) {
+		c.O.MaxMeta = 1 << 20
+	}
 	if r.Chance(1, 3) {
 		c.O.RefPage = 1 + r.Intn(5)
 	}
@@ -1576,6 +1749,14 @@ func genCase(r *common.Rand, nops int) *Case {
 			b = nil
 		}
 		c.Pool = append(c.Pool, PoolItem{Bytes: b, Digest: sha(b), Subj: "N"})
+	}
+	// MaxMetadataBytes around the size of one of the manifests: limit-1, limit, limit+1
+	if r.Chance(1, 4) {
+		c.O.MaxMeta = int64(len(c.Pool[r.Intn(nman)].Bytes)) + int64(r.Intn(3)) - 1
+		if c.O.MaxMeta <= 0 {
+			c.O.MaxMeta = 1
+		}
+		run.Count("opt:limit-near-manifest-size")
 	}
 	for i := nman; i < len(c.Pool); i++ {
 		if r.Bool() {
@@ -1718,7 +1899,8 @@ func genCase(r *common.Rand, nops int) *Case {
 			}
 			pushed = append(pushed, d)
 		case x < 95:
-			if !c.Prof.Referrers || c.Rst == 2 {
+			// (the referrers index document itself is not modelled byte-wise: no tiny limits here)
+			if !c.Prof.Referrers || c.Rst == 2 || (c.O.MaxMeta > 0 && c.O.MaxMeta < 1<<16) {
 				continue
 			}
 			o = Op{Kind: "preds", D: someDesc(), CI: -1}
@@ -1744,7 +1926,7 @@ type corVariant struct{ Field, Arg string }
 
 func corVariants(c *Case) []corVariant {
 	return []corVariant{{"dig-other", sha([]byte("other0"))}, {"dig-other", c.Pool[len(c.Pool)-1].Digest}, {"dig-garbage", ""}, {"dig-drop", ""},
-		{"len-inc", ""}, {"len-drop", ""}, {"type-other", ""}, {"type-garbage", ""}, {"type-drop", ""}, {"status", "500"}, {"status", "204"}, {"loc-drop", ""}}
+		{"len-inc", ""}, {"len-drop", ""}, {"type-other", ""}, {"type-garbage", ""}, {"type-drop", ""}, {"status", "500"}, {"status", "204"}, {"status", "404"}, {"loc-drop", ""}, {"name-unknown", ""}}
 }
 
 // canonicalCase: one history that exercises every operation and every request shape.
@@ -1850,12 +2032,12 @@ func enumerateCorruptions() {
 		}
 	}
 	run.Extra["corruption_enumeration"] = map[string]any{"exhaustive": true, "profiles": len(profiles), "histories": hist, "corrupted_runs": runs,
-		"variants_per_exchange": 12, "distinct_field_op_method_endpoint": pairs,
+		"variants_per_exchange": 14, "distinct_field_op_method_endpoint": pairs,
 		"what": "canonical history with every operation and request shape; every exchange of it x every single-field corruption variant, per capability profile (thorough: all 32 profiles x referrers state unknown/supported)"}
 }
 
 var corruptFields = []string{"dig-other", "dig-garbage", "dig-drop", "len-inc", "len-drop", "type-other", "type-garbage",
-	"type-drop", "status", "status", "loc-drop"}
+	"type-drop", "status", "status", "loc-drop", "name-unknown"}
 
 func genSeek(r *common.Rand) *SeekCase {
 	n := r.Intn(40)
@@ -1946,8 +2128,30 @@ func genSeek(r *common.Rand) *SeekCase {
 			}
 		}
 	}
+	if r.Chance(1, 12) { // offsets at the edge of int64
+		big := []int64{1<<63 - 1, -(1 << 63), 1<<63 - 1 - size, 1 << 62}
+		seek(common.Pick(r, big), r.Intn(3))
+		read(3)
+	}
 	if len(s.Ops) > 60 {
 		s.Ops = s.Ops[:60]
+	}
+	// one field of the answer to one of the script's Range requests corrupted
+	if s.Prof.Range && r.Chance(1, 3) {
+		nseek := 0
+		for _, o := range s.Ops {
+			if o.K == "s" {
+				nseek++
+			}
+		}
+		f := common.Pick(r, []string{"status", "status", "status", "len-inc", "len-inc", "len-drop", "dig-other", "dig-garbage", "dig-drop", "type-other"})
+		s.Cor = &fr.Corruption{K: r.Intn(nseek + 1), Field: f}
+		switch f {
+		case "status":
+			s.Cor.Arg = common.Pick(r, []string{"200", "500", "204", "416", "404"})
+		case "dig-other":
+			s.Cor.Arg = sha([]byte("other"))
+		}
 	}
 	return s
 }
@@ -2007,7 +2211,7 @@ func main() {
 					cc.Cor.Arg = common.Pick(r, c.Pool).Digest
 				}
 			case "status":
-				cc.Cor.Arg = common.Pick(r, []string{"500", "204"})
+				cc.Cor.Arg = common.Pick(r, []string{"500", "204", "404", "403", "200", "201", "202"})
 			}
 			execHistory(run.NewID(), &cc)
 		}
@@ -2034,4 +2238,31 @@ func main() {
 		execGram(run.NewID(), genGram(r.Fork()))
 	}
 	_ = sort.Strings
+	// coverage floors: a stream that silently produced nothing is a failure of the run
+	if run.Replay == "" {
+		floors := map[string]int{"seek:r": 1000, "seek:s": 1000, "seek:position-unchanged": 50, "seek:read-eof-with-data": 50, "seek:reconnect": 200,
+			"seek:corrupt:status": 5, "seek:corrupt:len-inc": 3, "location:url": 200, "grammar:allowed": 200, "grammar:rejected": 200,
+			"opt:limit-near-manifest-size": 50, "reader:opaque": 100, "route:manifests": 100, "route:blobs": 100, "warnings:delivered": 100}
+		var low []string
+		for k, v := range floors {
+			if run.Dist[k] < v {
+				low = append(low, fmt.Sprintf("%s=%d<%d", k, run.Dist[k], v))
+			}
+		}
+		ncor := 0
+		for k, v := range run.Dist {
+			if strings.HasPrefix(k, "corrupt:") {
+				ncor += v
+			}
+		}
+		if ncor < 500 {
+			low = append(low, fmt.Sprintf("corrupted-exchanges=%d<500", ncor))
+		}
+		if len(low) > 0 {
+			sort.Strings(low)
+			run.Finish()
+			fmt.Println("coverage floor not reached:", strings.Join(low, " "))
+			os.Exit(3)
+		}
+	}
 }
